@@ -225,7 +225,7 @@ def margins_ok(cx, cutoffs=(3.0, 5.0, 10.0), margin=0.01):
     return not any((np.abs(d - c) < margin).any() for c in cutoffs)
 
 
-def gen_base(rng, kinds=('jitter', 'rigid', 'del_dec', 'jitter'), hydrogens=None):
+def gen_base(rng, kinds=('jitter', 'rigid', 'del_dec', 'jitter'), hydrogens=None, margin=1e-6):
     for _ in range(200):
         kind = rng.choice(kinds)
         nA, nB = rng.randint(3, 8), rng.randint(3, 8)
@@ -237,7 +237,7 @@ def gen_base(rng, kinds=('jitter', 'rigid', 'del_dec', 'jitter'), hydrogens=None
             dec = cg.rigid_move(rng, dec, which=rng.choice(['all', 'B']), shift=5.0)
         if kind == 'del_dec':
             dec = cg.delete_some(rng, dec, n_res=rng.randint(0, 1), n_atoms=rng.randint(1, 2))
-        if margins_ok(ref) and margins_ok(dec):
+        if margins_ok(ref, margin=margin) and margins_ok(dec, margin=margin):
             return ref, dec
         regenerated[0] += 1
     return ref, dec
@@ -321,7 +321,7 @@ def one_case(rng, kind, k):
                   {'motion': motion_json(R, [Fraction(x, 1000) for x in tm]), 'which': which})
     if kind == 'rigid':
         for _ in range(50):
-            ref, dec = gen_base(rng)
+            ref, dec = gen_base(rng, margin=0.01)
             R = cg.rot_matrix(rng)
             t = np.array([rng.uniform(-15, 15) for _ in range(3)])
             which = 'both' if k % 2 == 0 else 'dec'
